@@ -1241,6 +1241,8 @@ func (p *parser) parseBlock(block text.BlockReader, parent ast.Node, pc Context)
 			escaped = false
 			n++
 		}
+		// an escape never extends over the end of a line
+		escaped = false
 		if n != 0 {
 			block.Advance(n)
 		}
